@@ -297,6 +297,10 @@ func (l listEnviron) compare(a, b string) int {
 }
 
 func (l listEnviron) Get(name string) Variable {
+	if strings.IndexByte(name, '=') >= 0 {
+		// No name contains the separator; without this, "A=B" would find the pair "A=B=x".
+		return Variable{}
+	}
 	eqpos := len(name)
 	endpos := len(name) + 1
 	i, ok := slices.BinarySearchFunc(l.pairs, name, func(pair, name string) int {
